@@ -239,28 +239,35 @@ theorem getD_mem_of_lt {β : Type} (l : List β) (d : β) (p : Nat) (hp : p < l.
   rw [List.getD_eq_getElem?_getD, List.getElem?_eq_getElem hp]
   simp
 
-/-- **a sampled row is a sublist of the non-zero stored row, of size `min(deg, sample_size)`, and every kept column is
-a genuine neighbour** (a stored entry with a non-zero value), whenever `np.random.choice` returned distinct positions
-below the degree (its contract).  `deg` is the number of non-zero stored entries. -/
-theorem sampleRow_spec (row : List (Nat × ℝ)) (ch : List Nat) (k : Nat)
-    (hch : choiceOk (dropZeros row).length k ch = true) :
-    (sampleRow row ch).Sublist ((dropZeros row).map (·.1)) ∧
-      (sampleRow row ch).length = min (dropZeros row).length k ∧
-      ∀ j ∈ sampleRow row ch, ∃ v, (j, v) ∈ row ∧ v ≠ 0 := by
-  unfold sampleRow
-  simp only []
-  set nz := dropZeros row with hnz
+theorem mem_neighbours (nCol : Nat) (row : List (Nat × ℝ)) (j : Nat) :
+    j ∈ neighbours nCol row ↔ j < nCol ∧ entrySum row j ≠ 0 := by
+  unfold neighbours
+  simp only [List.mem_filter, List.mem_range, num_eqb, Bool.not_eq_true', decide_eq_false_iff_not]
+
+theorem neighbours_nodup (nCol : Nat) (row : List (Nat × ℝ)) : (neighbours nCol row).Nodup :=
+  List.Nodup.filter _ List.nodup_range
+
+/-- **a sampled row is a sublist of the neighbours of the node** — the columns whose entry in the matrix the container
+denotes (duplicates summed) is not zero — **without repetition, of size `min(deg, sample_size)`** where `deg` is the
+number of neighbours, whenever `np.random.choice` returned distinct positions below the degree (its contract). -/
+theorem sampleRow_spec (nCol : Nat) (row : List (Nat × ℝ)) (ch : List Nat) (k : Nat)
+    (hch : choiceOk (neighbours nCol row).length k ch = true) :
+    (sampleRow nCol row ch).Sublist (neighbours nCol row) ∧
+      (sampleRow nCol row ch).length = min (neighbours nCol row).length k ∧
+      (sampleRow nCol row ch).Nodup ∧
+      ∀ j ∈ sampleRow nCol row ch, j < nCol ∧ entrySum row j ≠ 0 := by
   unfold choiceOk at hch
   simp only [Bool.and_eq_true, beq_iff_eq, List.all_eq_true, decide_eq_true_eq] at hch
   obtain ⟨⟨hlen, hlt⟩, hnd⟩ := hch
-  refine ⟨?_, ?_, ?_⟩
-  · have h1 : (List.range nz.length).map (fun p => (nz.getD p (0, 0)).1) = nz.map (·.1) := by
-      conv_rhs => rw [← map_getD_range nz (0, 0)]
-      rw [List.map_map]
-      rfl
-    rw [← h1]
+  have hsub : (sampleRow nCol row ch).Sublist (neighbours nCol row) := by
+    unfold sampleRow
+    simp only []
+    conv_rhs => rw [← map_getD_range (neighbours nCol row) 0]
     exact List.Sublist.map _ List.filter_sublist
-  · rw [List.length_map, ← hlen]
+  refine ⟨hsub, ?_, hsub.nodup (neighbours_nodup nCol row), ?_⟩
+  · unfold sampleRow
+    simp only []
+    rw [List.length_map, ← hlen]
     apply List.Perm.length_eq
     rw [List.perm_ext_iff_of_nodup (List.Nodup.filter _ List.nodup_range) hnd]
     intro a
@@ -269,18 +276,11 @@ theorem sampleRow_spec (row : List (Nat × ℝ)) (ch : List Nat) (k : Nat)
     · exact fun h => h.2
     · exact fun h => ⟨hlt a h, h⟩
   · intro j hj
-    simp only [List.mem_map, List.mem_filter, List.mem_range] at hj
-    obtain ⟨p, ⟨hp, _⟩, hpj⟩ := hj
-    have hmem : nz.getD p (0, 0) ∈ nz := getD_mem_of_lt nz (0, 0) p hp
-    rw [hnz] at hmem
-    unfold dropZeros at hmem
-    simp only [List.mem_filter, num_eqb, Bool.not_eq_true', decide_eq_false_iff_not] at hmem
-    refine ⟨(nz.getD p (0, 0)).2, ?_, hmem.2⟩
-    rw [← hpj]
-    exact hmem.1
+    exact (mem_neighbours nCol row j).mp (hsub.subset hj)
 
-theorem sampleRows_getD (rows : List (List (Nat × ℝ))) (choice : List (List Nat)) (i : Nat) (hi : i < rows.length) :
-    (sampleRows rows choice).getD i [] = sampleRow (rows.getD i []) (choice.getD i []) := by
+theorem sampleRows_getD (nCol : Nat) (rows : List (List (Nat × ℝ))) (choice : List (List Nat)) (i : Nat)
+    (hi : i < rows.length) :
+    (sampleRows nCol rows choice).getD i [] = sampleRow nCol (rows.getD i []) (choice.getD i []) := by
   unfold sampleRows
   rw [tab_getD, if_pos hi]
 
